@@ -21,6 +21,7 @@ type World struct {
 	effects  map[*ssa.Function]*Effects // inferred write sets (effects.go)
 	VerifDir string
 	recNames map[string][]string // recorded declaration names per function (names.go)
+	recTypes map[string][]string
 	Repo      string
 	Prog      *ssa.Program
 	Pkgs      []*packages.Package
